@@ -116,19 +116,67 @@ def feasible(an: Analysis, path, recv: str, order: str, stop_at_suspension=True)
     return True
 
 
+_FLAGS = {}
+
+
+def _dated_trigger(path, index, event) -> bool:
+    """a call that schedules something for ``self.date``"""
+    return event.kind == 'call' and is_call_to(event, 'schedule') and any(
+        kw.arg == 'at' and rules.value_text(path, index, kw.value) == 'self.date'
+        for kw in event.node.keywords)
+
+
+def scheduled_flags(an: Analysis, cls_qn: str) -> set:
+    """attributes ``self.X`` of the class that are set True only in an atomic block that
+    also schedules the trigger for ``self.date``: `X is True` means "trigger ensured"""
+    key = (id(an), cls_qn)
+    if key in _FLAGS:
+        return _FLAGS[key]
+    cls = an.cls(cls_qn)
+    result = set()
+    stores = {}
+    for fn in an.p.functions.values():
+        if fn.cls is not cls or fn.name == '__init__' or isinstance(fn.node, ast.Lambda):
+            continue
+        callee = Callee(fn, cls_qn)
+        try:
+            paths = an.paths(callee)
+        except AnalysisError:
+            continue
+        for path in paths:
+            for index, event in enumerate(path.events):
+                if event.kind == 'store' and (event['path'] or '').startswith('self.') and \
+                        isinstance(event.get('value'), ast.Constant) and \
+                        event['value'].value is True:
+                    block = rules.atomic_block(path, index)
+                    paired = any(_dated_trigger(path, rules.event_index(path, e), e)
+                                 for e in block)
+                    stores.setdefault(event['path'], []).append(paired)
+    for attr, paired in stores.items():
+        if paired and all(paired):
+            result.add(attr)
+    _FLAGS.clear()
+    _FLAGS[key] = result
+    return result
+
+
 def await_action(an: Analysis, cls_qn: str, order: str, depth=0):
     """POSTPONE / UNTIL-DATE / FOREVER for ``await cls(date)`` under an ordering"""
     callee = an.callee(cls_qn, '__await__')
     actions = set()
     witness = None
+    flags = scheduled_flags(an, cls_qn)
     for path in an.paths(callee):
         if not feasible(an, path, cls_qn, order):
             continue
         first = None
         ensured = False
-        for event in path.events:
-            if is_call_to(event, '_ensure_trigger'):
+        for index, event in enumerate(path.events):
+            if _dated_trigger(path, index, event):
                 ensured = True
+            if event.kind == 'test' and event.get('key') and event['key'][0] == 'truth' \
+                    and event['key'][1] in flags and key_truth(event) is True:
+                ensured = True  # the trigger was scheduled earlier
             if event.kind == 'susp' and event.depth == 0:
                 first = event
                 break
@@ -246,6 +294,7 @@ def run(check, an: Analysis):
     check.rule('L6', 'truth terms and await/subscribe action tables of the time conditions '
                      'under the three orderings of clock and date')
     check.rule('L7', 'optional dates are tested with `is None`')
+    check.rule('L8', 'absolute dates reach the loop unchanged; no delay is derived from them')
     an.cls(LOOP)
 
     # ---- L1 -----------------------------------------------------------------
@@ -324,16 +373,31 @@ def run(check, an: Analysis):
     check_await_table(check, an)
     check_subscribe_table(check, an)
     # After's trigger fires at its date and triggers that very condition
-    ensure = an.callee(AFTER, '_ensure_trigger')
-    for path in an.paths(ensure):
-        for event in path.events:
-            if is_call_to(event, 'schedule'):
-                call = event.node
-                kws = {kw.arg: ast.unparse(kw.value) for kw in call.keywords}
-                ok = kws.get('at') == 'self.date' and 'delay' not in kws and \
-                    ast.unparse(call.args[0]) == 'self._async_trigger()'
-                check.instance('L6', 'After._ensure_trigger', ok, event.where,
-                               'schedule(self._async_trigger(), at=self.date)')
+    n_trigger = 0
+    for fn in sorted(an.p.functions.values(), key=lambda f: f.qn):
+        if fn.cls is None or fn.cls.qn != AFTER or isinstance(fn.node, ast.Lambda):
+            continue
+        sites = {}
+        for path in an.paths(Callee(fn, AFTER)):
+            for index, event in enumerate(path.events):
+                if event.kind == 'call' and is_call_to(event, 'schedule') and \
+                        event.fn is fn and event.node.keywords:
+                    call = event.node
+                    kws = {kw.arg: rules.value_text(path, index, kw.value)
+                           for kw in call.keywords}
+                    what = rules.value_text(path, index, call.args[0]) if call.args else '?'
+                    ok = kws.get('at') == 'self.date' and 'delay' not in kws and \
+                        what == 'self._async_trigger()'
+                    sites[id(call)] = (sites.get(id(call), (True,))[0] and ok, event.where)
+        for ok, where in sites.values():
+            n_trigger += 1
+            check.instance('L6', 'After:trigger-site:%s' % fn.name, ok, where,
+                           'schedule(self._async_trigger(), at=self.date)')
+    check.instance('L6', 'After:trigger-sites', n_trigger > 0 and
+                   bool(scheduled_flags(an, AFTER)), where_fn(an.method(AFTER, '__await__')),
+                   'the trigger is scheduled (%d sites) and remembered by a flag that is set '
+                   'only together with it (%s)' % (n_trigger,
+                                                   sorted(scheduled_flags(an, AFTER))))
     trig = an.callee(AFTER, '_async_trigger')
     ok = any(is_call_to(e, '__trigger__') for p in an.paths(trig) for e in p.events)
     check.instance('L6', 'After._async_trigger', ok, where_fn(trig.fn),
@@ -486,82 +550,6 @@ def _check_waitqueues(check, an: Analysis):
                        'a fresh empty deque per key')
 
 
-def _guard_kind(an: Analysis, fn, call, kw_name, expr, depth=0):
-    """how the positivity/futurity of ``expr`` at ``call`` is established"""
-    if isinstance(expr, ast.Constant) and expr.value is None:
-        return 'none'
-    owner = an.p.enclosing_self_class(fn)
-    callee = Callee(fn, owner.qn if owner else None)
-    text = ast.unparse(expr)
-    want_key = ('lt', '0', text) if kw_name == 'delay' else None
-    # (1) dominating test on every path reaching the call
-    dominated, reached = True, 0
-    try:
-        paths = an.paths(callee)
-    except AnalysisError:
-        paths = []
-    for path in paths:
-        for index, event in enumerate(path.events):
-            if event.node is not call or event.kind not in ('call',):
-                continue
-            reached += 1
-            facts = event.data.get('facts') or {}
-            if kw_name == 'delay':
-                ok = facts.get(want_key) is True
-            else:
-                ok = _future_fact(an, facts, text, fn, owner)
-            dominated &= ok
-    if reached and dominated:
-        return 'test'
-    # (2) pass-through parameter: every caller must establish it
-    if isinstance(expr, ast.Name) and rules._is_param(fn, expr.id) and depth < 3:
-        return 'param'
-    # (3) class invariant on an attribute assigned only in __init__
-    if isinstance(expr, ast.Attribute) and isinstance(expr.value, ast.Name) \
-            and expr.value.id == 'self' and owner is not None:
-        stores = rules.attribute_stores(an, expr.attr, owner.qn)
-        if stores and all(f.name == '__init__' for f, _s, _t, _r in stores):
-            init = stores[0][0]
-            src = stores[0][1].value
-            if isinstance(src, ast.Name):
-                for node in ast.walk(init.node):
-                    if isinstance(node, ast.Assert) and equal_bool(
-                            node.test, '%s > 0' % src.id):
-                        return 'invariant(assert)'
-                    if isinstance(node, ast.If) and equal_bool(
-                            node.test, 'not %s > 0' % src.id) and any(
-                            isinstance(b, ast.Raise) for b in node.body):
-                        return 'invariant'
-    # (3b) attribute of self guarded by the callers of this (parameterless) helper
-    if isinstance(expr, ast.Attribute) and isinstance(expr.value, ast.Name) \
-            and expr.value.id == 'self' and owner is not None and depth < 2:
-        callers = [(cfn, ccall) for cfn, ccall, _f in rules.call_sites_of(an, fn.qn)
-                   if isinstance(ccall.func, ast.Attribute)
-                   and isinstance(ccall.func.value, ast.Name)
-                   and ccall.func.value.id == 'self']
-        all_sites = rules.call_sites_of(an, fn.qn)
-        if callers and len(callers) == len(all_sites):
-            good = True
-            for cfn, ccall in callers:
-                cowner = an.p.enclosing_self_class(cfn)
-                ccallee = Callee(cfn, cowner.qn if cowner else None)
-                reached = 0
-                for path in an.paths(ccallee):
-                    for event in path.events:
-                        if event.node is ccall and event.kind in ('call', 'enter'):
-                            reached += 1
-                            good &= _future_fact(an, event.data.get('facts') or {}, text,
-                                                 cfn, cowner)
-                good &= reached > 0
-            if good:
-                return 'callers(%s)' % ', '.join(sorted(short(c.qn) for c, _ in callers))
-    # (4) closure variable of an enclosing function
-    if isinstance(expr, ast.Name) and fn.parent is not None and \
-            rules._is_param(fn.parent, expr.id):
-        return 'closure'
-    return None
-
-
 def _future_fact(an, facts, text, fn, owner) -> bool:
     """`text > now` established: direct comparison or `not self` with self ~ now >= text"""
     for key, value in facts.items():
@@ -580,6 +568,174 @@ def _future_fact(an, facts, text, fn, owner) -> bool:
     return False
 
 
+
+NOW = 'NOW_'
+TASK_QN = 'usim._primitives.task.Task'
+
+
+def _clock_as_symbol(expr, fn):
+    """``expr`` with every read of the current time replaced by the symbol NOW_"""
+    import copy
+
+    class Sub(ast.NodeTransformer):
+        def visit_Attribute(self, node):
+            if isinstance(node.ctx, ast.Load) and rules.is_current_time(node, fn):
+                return ast.Name(id=NOW, ctx=ast.Load())
+            return self.generic_visit(node)
+
+        def visit_Name(self, node):
+            if isinstance(node.ctx, ast.Load) and node.id != NOW and fn is not None and \
+                    rules.is_current_time(node, fn):
+                return ast.Name(id=NOW, ctx=ast.Load())
+            return node
+    return Sub().visit(copy.deepcopy(expr))
+
+
+def _established(an, path, index, value, kind, fn, owner, raw_text):
+    """'test' / 'assert' when the path establishes value > 0 (delay) / value > now (at)"""
+    from .c16 import asserted
+    text = ast.unparse(value)
+    want_expr = ast.parse('(%s) > 0' % text if kind == 'delay' else
+                          '(%s) > %s' % (text, NOW), mode='eval').body
+    want = asserted(_clock_as_symbol(want_expr, fn), True)
+    how = None
+    if want is not None:
+        for pos in range(index - 1, -1, -1):
+            event = path.events[pos]
+            if event.kind not in ('test', 'assert') or 'value' not in event.data:
+                continue
+            seen = rules.value_expr(path, pos, event.node, keep_clock=False)
+            if not isinstance(seen, ast.Compare):
+                continue
+            if not isinstance(event.node, ast.Compare) and not _stable_locals(path, seen):
+                continue  # a remembered outcome of a comparison that may have changed
+            if asserted(_clock_as_symbol(seen, event.fn), event['value']) == want:
+                kind_ = 'assert' if event.kind == 'assert' else 'test'
+                how = 'test' if 'test' in (how, kind_) else kind_
+    if how:
+        return how
+    facts = path.events[index].data.get('facts') or {}
+    if kind == 'delay' and (facts.get(('lt', '0', raw_text)) is True
+                            or facts.get(('lt', '0', text)) is True):
+        return 'test'
+    if kind == 'at' and (_future_fact(an, facts, raw_text, fn, owner)
+                         or _future_fact(an, facts, text, fn, owner)):
+        return 'test'
+    return None
+
+
+def _stable_locals(path, expr) -> bool:
+    """only constants and locals/parameters that are never re-bound on the path"""
+    for node in ast.walk(expr):
+        if isinstance(node, (ast.Attribute, ast.Call, ast.Subscript, ast.Await)):
+            return False
+        if isinstance(node, ast.Name) and isinstance(node.ctx, ast.Load):
+            if rules.reaching_store(path, len(path.events), node.id) is not None:
+                return False
+    return True
+
+
+def _invariant(an, fn, owner, expr, kind, depth):
+    """positivity/futurity of ``self.attr`` from the class: set once in __init__ from a
+    checked argument, or guarded by every (self-)caller of this parameterless helper"""
+    if not (isinstance(expr, ast.Attribute) and isinstance(expr.value, ast.Name)
+            and expr.value.id == 'self' and owner is not None):
+        return None
+    text = ast.unparse(expr)
+    stores = rules.attribute_stores(an, expr.attr, owner.qn)
+    if stores and all(f.name == '__init__' for f, _s, _t, _r in stores) and kind == 'delay':
+        from .c16 import asserted
+        init = an.callee(owner.qn, '__init__')
+        verdict, n, only_assert = True, 0, True
+        for path in an.paths(init):
+            if not path.normal:
+                continue
+            for index, event in enumerate(path.events):
+                if event.kind == 'store' and event['path'] == text and \
+                        event['value'] is not None:
+                    n += 1
+                    src = rules.value_expr(path, index, event['value'])
+                    how = _established(an, path, index, src, 'delay', init.fn, owner,
+                                       ast.unparse(event['value']))
+                    verdict &= how is not None
+                    only_assert &= how == 'assert'
+        if verdict and n:
+            return 'invariant(assert)' if only_assert else 'invariant'
+    if depth < 2:
+        sites = rules.call_sites_of(an, fn.qn)
+        callers = [(cfn, ccall) for cfn, ccall, _f in sites
+                   if isinstance(ccall.func, ast.Attribute)
+                   and isinstance(ccall.func.value, ast.Name)
+                   and ccall.func.value.id == 'self']
+        if callers and len(callers) == len(sites):
+            good = True
+            for cfn, ccall in callers:
+                cowner = an.p.enclosing_self_class(cfn)
+                ccallee = Callee(cfn, cowner.qn if cowner else None)
+                reached = 0
+                for path in an.paths(ccallee):
+                    for index, event in enumerate(path.events):
+                        if event.node is ccall and event.kind in ('call', 'enter'):
+                            reached += 1
+                            good &= _established(an, path, index, expr, kind, cfn, cowner,
+                                                 text) is not None
+                good &= reached > 0
+            if good:
+                return 'callers(%s)' % ', '.join(sorted(short(c.qn) for c, _ in callers))
+    return None
+
+
+def _classify(an, callee, call, kind, expr, depth):
+    """
+    how every path reaching ``call`` establishes the date/delay ``expr``:
+    (verdict text | None, forwarded names, forms) -- forms are the expanded expressions
+    """
+    fn = callee.fn
+    owner = an.p.enclosing_self_class(fn)
+    try:
+        paths = an.paths(callee)
+    except AnalysisError:
+        paths = []
+    hows, forms, follow = set(), set(), set()
+    reached = 0
+    for path in paths:
+        seen_here = False
+        for index, event in enumerate(path.events):
+            if event.node is not call or event.kind not in ('call', 'enter') or seen_here:
+                continue
+            seen_here = True
+            reached += 1
+            value = rules.value_expr(path, index, expr)
+            forms.add(ast.unparse(value))
+            if isinstance(value, ast.Constant) and value.value is None:
+                hows.add('none')
+                continue
+            if rules.fact_value(event, ('isnone', ast.unparse(value))) is True or \
+                    rules.path_atoms(path, 0, index).get(
+                        ('isnone', ast.unparse(value))) is True:
+                hows.add('none')  # known to be None on this path
+                continue
+            how = _established(an, path, index, value, kind, fn, owner, ast.unparse(expr))
+            if how:
+                hows.add(how)
+            elif isinstance(value, ast.Name) and rules._is_param(fn, value.id) and depth < 4:
+                hows.add('param')
+                follow.add(value.id)
+            elif isinstance(value, ast.Name) and fn.parent is not None and \
+                    rules._is_param(fn.parent, value.id):
+                hows.add('closure')
+                follow.add(value.id)
+            else:
+                inv = _invariant(an, fn, owner, value, kind, depth)
+                hows.add(inv if inv else 'UNGUARDED')
+    if not reached:
+        # not on any enumerated path (e.g. only inside an unreachable helper): judge syntax
+        if isinstance(expr, ast.Constant) and expr.value is None:
+            return {'none'}, forms, follow
+        return {'UNREACHED'}, forms, follow
+    return hows, forms, follow
+
+
 def _check_schedule_preconditions(check, an: Analysis):
     sites = rules.call_sites_of(an, LOOP + '.schedule')
     n_dated = 0
@@ -589,58 +745,91 @@ def _check_schedule_preconditions(check, an: Analysis):
             if kw.arg in ('delay', 'at'):
                 work.append((fn, call, kw.arg, kw.value, 0, 'schedule'))
     seen = set()
+    forwarded_dates = {}   # function -> parameters forwarded as an absolute date
+    delay_forms = []       # (fn, where, construct, expanded forms) of relative delays
     while work:
         fn, call, kw_name, expr, depth, via = work.pop()
         key = (fn.qn, call.lineno, call.col_offset, kw_name)
         if key in seen:
             continue
         seen.add(key)
-        how = _guard_kind(an, fn, call, kw_name, expr, depth)
+        owner = an.p.enclosing_self_class(fn)
+        callee = Callee(fn, owner.qn if owner else None)
+        hows, forms, follow = _classify(an, callee, call, kw_name, expr, depth)
         where = '%s:%d' % (fn.module.relpath, call.lineno)
-        construct = '%s:%s=%s' % (short(fn.qn), kw_name, ast.unparse(expr))
-        if how == 'none':
+        construct = '%s:%s=%s' % (short(fn.qn), kw_name, '|'.join(sorted(forms))
+                                  or ast.unparse(expr))
+        if hows <= {'none'}:
             continue
         n_dated += 1
-        if how == 'param':
-            # follow to the callers of fn
-            callers = rules.call_sites_of(an, fn.qn)
-            index = _param_index(fn, expr.id)
-            for cfn, ccall, cframe in callers:
-                arg = _argument(ccall, fn, expr.id, index)
-                if arg is not None:
-                    work.append((cfn, ccall, kw_name, arg, depth + 1, short(fn.qn)))
-            check.instance('L3', construct, bool(callers), where,
-                           'passed through from %d call sites (each checked)' % len(callers),
-                           nontrivial=False)
-        elif how == 'closure':
+        if kw_name == 'delay':
+            delay_forms.append((fn, where, construct, forms))
+        else:
+            # an absolute date is handed on as it was received, never recomputed
+            bad = sorted(f for f in forms if not _is_pass_through(f))
+            for form in forms:
+                if form.isidentifier() and rules._is_param(fn, form):
+                    forwarded_dates.setdefault(fn.qn, set()).add(form)
+            check.instance('L8', construct, not bad, where,
+                           'the date reaches the loop as given (a name, an attribute or '
+                           'None), never through arithmetic%s' % (
+                               ': `%s`' % bad[0] if bad else ''))
+        if 'param' in hows:
+            for name in follow:
+                if rules._is_param(fn, name):
+                    if kw_name == 'at':
+                        forwarded_dates.setdefault(fn.qn, set()).add(name)
+                    callers = rules.call_sites_of(an, fn.qn)
+                    index = _param_index(fn, name)
+                    for cfn, ccall, cframe in callers:
+                        arg = _argument(ccall, fn, name, index)
+                        if arg is not None:
+                            work.append((cfn, ccall, kw_name, arg, depth + 1, short(fn.qn)))
+                    check.instance('L3', construct + ':from-callers', bool(callers), where,
+                                   '`%s` is passed through from %d call sites (each '
+                                   'checked)' % (name, len(callers)), nontrivial=False)
+        if 'closure' in hows:
             outer = fn.parent
             ctor = outer.cls.qn if outer.cls is not None and outer.name == '__init__' \
                 else None
             established = False
             detail = 'closure variable of %s' % short(outer.qn)
             if ctor is not None:
-                for cfn, node, cframe in _constructor_sites(an, ctor):
-                    arg = _argument(node, outer, expr.id, _param_index(outer, expr.id))
-                    if arg is None:
+                established = True
+                n_sites = 0
+                for name in follow:
+                    if not rules._is_param(outer, name):
                         continue
-                    bound = '0' if kw_name == 'delay' else None
-                    for sub in ast.walk(cfn.node):
-                        if isinstance(sub, ast.Assert):
-                            text = ast.unparse(arg)
-                            if kw_name == 'delay' and equal_bool(
-                                    sub.test, '%s is None or %s > 0' % (text, text)):
-                                established = True
-                            if kw_name == 'at' and isinstance(sub.test, ast.BoolOp) and \
-                                    len(sub.test.values) == 2 and equal_bool(
-                                    sub.test.values[0], '%s is None' % text) and \
-                                    _is_future_compare(sub.test.values[1], text, cfn):
-                                established = True
-                    detail += '; established by a usage assertion in %s' % short(cfn.qn)
-            check.instance('L3', construct, established, where, detail, assert_only=True)
-        else:
-            check.instance('L3', construct, how is not None, where,
-                           'positivity/futurity established by: %s' % how,
-                           assert_only=bool(how) and 'assert' in how)
+                    if kw_name == 'at':
+                        forwarded_dates.setdefault(outer.qn, set()).add(name)
+                    for cfn, node, cframe in _constructor_sites(an, ctor):
+                        arg = _argument(node, outer, name, _param_index(outer, name))
+                        if arg is None:
+                            continue
+                        n_sites += 1
+                        work.append((cfn, node, kw_name, arg, depth + 1, short(outer.qn)))
+                established = n_sites > 0
+                detail += '; %d constructor sites (each checked)' % n_sites
+            check.instance('L3', construct + ':from-constructor', established, where, detail,
+                           nontrivial=False)
+        rest = hows - {'none', 'param', 'closure'}
+        bad = sorted(h for h in rest if h in ('UNGUARDED', 'UNREACHED'))
+        if rest or bad:
+            only_assert = bool(rest) and all('assert' in h for h in rest)
+            check.instance('L3', construct, not bad, where,
+                           'positivity/futurity established on every path by: %s' % (
+                               ', '.join(sorted(rest))), assert_only=only_assert)
+    # a relative delay is never computed from an absolute date of the same call chain
+    for fn, where, construct, forms in delay_forms:
+        dates = forwarded_dates.get(fn.qn, set())
+        mixed = sorted(f for f in forms if not _is_pass_through(f) and any(
+            isinstance(n, ast.Name) and n.id in dates
+            for n in ast.walk(ast.parse(f, mode='eval'))))
+        if dates:
+            check.instance('L8', construct + ':not-from-date', not mixed, where,
+                           'the delay is not derived from the absolute date %s of the same '
+                           'call (now + (date - now) is not the date in floating point)%s'
+                           % (sorted(dates), ': `%s`' % mixed[0] if mixed else ''))
     check.floor('L3', 8, 'dated schedule sites and their callers')
     # the loop's own last line of defence
     schedule = an.method(LOOP, 'schedule')
@@ -651,6 +840,14 @@ def _check_schedule_preconditions(check, an: Analysis):
                    any(equal_bool(a, 'at > self.time') for a in asserts),
                    where_fn(schedule), 'the loop asserts delay > 0 and at > time',
                    assert_only=True, nontrivial=False)
+
+
+def _is_pass_through(text: str) -> bool:
+    node = ast.parse(text, mode='eval').body
+    while isinstance(node, ast.Attribute):
+        node = node.value
+    return isinstance(node, ast.Name) or (isinstance(node, ast.Constant)
+                                          and node.value is None)
 
 
 def _is_future_compare(node, text, fn) -> bool:
@@ -716,44 +913,76 @@ def _check_plumbing(check, an: Analysis):
     check.instance('L5', 'Loop.schedule:keys', kinds == {'delay': True, 'at': True},
                    where_fn(schedule), 'activations are queued under `time + delay` when a '
                    'delay is given and under `at` when a date is given: %s' % kinds)
-    table = [
-        ('usim._primitives.notification.suspend', 'schedule', {'delay': 'delay',
-                                                              'at': 'until'}),
-        (DELAY + '.__subscribe__', 'schedule', {'delay': 'self.duration'}),
-        (AFTER + '._ensure_trigger', 'schedule', {'at': 'self.date'}),
-    ]
-    for qn, callee_name, kws in table:
-        fn = an.fn(qn)
-        calls = [n for n in ast.walk(fn.node) if isinstance(n, ast.Call)
-                 and isinstance(n.func, ast.Attribute) and n.func.attr == callee_name]
-        ok = len(calls) == 1 and all(
-            any(kw.arg == k and ast.unparse(kw.value) == v for kw in calls[0].keywords)
-            for k, v in kws.items()) and not any(
-            kw.arg in ('delay', 'at') and kw.arg not in kws for kw in calls[0].keywords)
-        check.instance('L5', '%s->%s' % (short(qn), callee_name), ok, where_fn(fn),
-                       'keywords %s' % kws)
+    # every dated hand-over to the loop forwards what it was given (discovered sites)
+    for fn, call, frame in rules.call_sites_of(an, LOOP + '.schedule'):
+        dated = [kw for kw in call.keywords if kw.arg in ('delay', 'at')]
+        if not dated:
+            continue
+        owner = an.p.enclosing_self_class(fn)
+        callee = Callee(fn, owner.qn if owner else None)
+        forms = {}
+        for path in an.paths(callee):
+            for index, event in enumerate(path.events):
+                if event.node is call and event.kind == 'call':
+                    for kw in dated:
+                        forms.setdefault(kw.arg, set()).add(
+                            rules.value_text(path, index, kw.value))
+        ok = bool(forms) and all(_is_pass_through(f) for fs in forms.values() for f in fs)
+        # a delay parameter feeds `delay=`, a date parameter feeds `at=`, never crossed
+        params = {a.arg for a in fn.node.args.args + fn.node.args.kwonlyargs}
+        crossed = [f for f in forms.get('at', ()) if f in params and 'delay' in f] + \
+                  [f for f in forms.get('delay', ()) if f in params and f in ('at', 'until')]
+        check.instance('L5', '%s->schedule' % short(fn.qn), ok and not crossed,
+                       '%s:%d' % (fn.module.relpath, call.lineno),
+                       'delay/date handed to the loop as received: %s' % {
+                           k: sorted(v) for k, v in forms.items()})
     # the task wrapper hands its start delay/date to suspend unchanged
     from . import _scope
     wrapper = _scope.wrapper_callee(an)
-    calls = [n for n in ast.walk(wrapper.fn.node) if isinstance(n, ast.Call)
-             and ast.unparse(n.func) == 'suspend']
-    ok = len(calls) == 1 and {kw.arg: ast.unparse(kw.value) for kw in calls[0].keywords} \
-        == {'delay': 'delay', 'until': 'at'}
-    check.instance('L5', 'wrapper->suspend', ok, where_fn(wrapper.fn),
-                   'suspend(delay=delay, until=at)')
-    do = an.method('usim._primitives.context.Scope', 'do')
-    ctor = [n for n in ast.walk(do.node) if isinstance(n, ast.Call)
-            and ast.unparse(n.func) == 'Task']
-    ok = len(ctor) == 1 and {kw.arg: ast.unparse(kw.value) for kw in ctor[0].keywords
-                             if kw.arg in ('delay', 'at')} == {'delay': 'after', 'at': 'at'}
-    check.instance('L5', 'Scope.do->Task', ok, where_fn(do), 'Task(delay=after, at=at)')
-    # normalisation of "now" in do(): after == 0 and at == now mean no date at all
-    tests = [ast.unparse(n.test) for n in ast.walk(do.node) if isinstance(n, ast.If)]
-    ok = any(equal_bool(t, 'after == 0') for t in tests) and any(
-        isinstance(n, ast.If) and isinstance(n.test, ast.Compare) and
-        ast.unparse(n.test.left) == 'at' and isinstance(n.test.ops[0], ast.Eq) and
-        rules.is_current_time(n.test.comparators[0], do) for n in ast.walk(do.node))
-    check.instance('L5', 'Scope.do:now-means-undated', ok, where_fn(do),
+    ok, n = True, 0
+    for path in an.paths(wrapper):
+        for index, event in enumerate(path.events):
+            if event.kind == 'call' and is_call_to(event, 'suspend') and \
+                    event.fn is wrapper.fn:
+                n += 1
+                got = {kw.arg: rules.value_text(path, index, kw.value)
+                       for kw in event.node.keywords}
+                ok &= got == {'delay': 'delay', 'until': 'at'} and not event.node.args
+    check.instance('L5', 'wrapper->suspend', ok and n > 0, where_fn(wrapper.fn),
+                   'suspend(delay=delay, until=at) (%d sites on paths)' % n)
+    do = an.callee('usim._primitives.context.Scope', 'do')
+    ok, n, undated = True, 0, {'after': set(), 'at': set()}
+    dparams = [a.arg for a in do.fn.node.args.args + do.fn.node.args.kwonlyargs]
+    for path in an.paths(do):
+        for index, event in enumerate(path.events):
+            if not (event.kind == 'call' and is_call_to(event, '__init__', TASK_QN)):
+                continue
+            n += 1
+            got = {kw.arg: rules.value_text(path, index, kw.value)
+                   for kw in event.node.keywords if kw.arg in ('delay', 'at')}
+            ok &= got.get('delay') in ('after', 'None') and got.get('at') in ('at', 'None')
+            # "now" means undated: after == 0 / at == now on the path => None is passed
+            for pos in range(index):
+                seen = path.events[pos]
+                if seen.kind != 'test' or not isinstance(seen.node, ast.Compare) or \
+                        len(seen.node.ops) != 1 or not isinstance(seen.node.ops[0], ast.Eq):
+                    continue
+                test = rules.value_expr(path, pos, seen.node)
+                sides = [test.left, test.comparators[0]]
+                texts = [ast.unparse(x) for x in sides]
+                if sorted(texts) == ['0', 'after']:
+                    undated['after'].add(bool(seen['value']))
+                    if seen['value']:
+                        ok &= got.get('delay') == 'None'
+                elif 'at' in texts and any(rules.is_current_time(x, seen.fn) for x in sides):
+                    undated['at'].add(bool(seen['value']))
+                    if seen['value']:
+                        ok &= got.get('at') == 'None'
+    check.instance('L5', 'Scope.do->Task', ok and n > 0, where_fn(do.fn),
+                   'Task(delay=after, at=at) (%d sites on paths)' % n)
+    check.instance('L5', 'Scope.do:now-means-undated',
+                   ok and undated == {'after': {True, False}, 'at': {True, False}},
+                   where_fn(do.fn),
                    '`after == 0` and `at == now` are turned into an undated start')
     # Time operators build the matching condition with the operand passed through
     for name, cls in (('__ge__', 'After'), ('__eq__', 'Moment'), ('__lt__', 'Before')):
